@@ -44,7 +44,7 @@ def main():
         })
     m = {
         "version": 1,
-        "setup_cmd": "cd lean/CubedModel && lake build",
+        "setup_cmd": "./tools/setup.py",
         "hooks": {
             "guard": "CUBED_VERIF",
             "enable": "no instrumentation of /repo is needed: checks observe through public extension points (custom executors, "
